@@ -568,11 +568,20 @@ func c14mulhi(p *Program, r *Report) {
 		r.Unresolved("C14.mulhi", "gcs.BuildGCSFilter")
 		return
 	}
+	// the range reduction: the in-repo function that is handed the keyed hash (anywhere in the functions the builder reaches)
 	var red *ssa.Function
-	for _, b := range build.Blocks {
-		for _, in := range b.Instrs {
-			if c, ok := in.(*ssa.Call); ok && c.Call.StaticCallee() != nil && p.InRepo(c.Call.StaticCallee()) && len(c.Call.Args) == 3 {
-				red = c.Call.StaticCallee()
+	for _, fn := range p.Reachable([]*ssa.Function{build}) {
+		for _, b := range fn.Blocks {
+			for _, in := range b.Instrs {
+				c, ok := in.(*ssa.Call)
+				if !ok || c.Call.StaticCallee() == nil || !p.InRepo(c.Call.StaticCallee()) || len(c.Call.Args) == 0 {
+					continue
+				}
+				if hc, ok := c.Call.Args[0].(*ssa.Call); ok && staticCalleeIs(&hc.Call, "github.com/aead/siphash.Sum64") {
+					if res := c.Call.StaticCallee().Signature.Results(); res.Len() == 1 {
+						red = c.Call.StaticCallee()
+					}
+				}
 			}
 		}
 	}
